@@ -8,6 +8,7 @@ var props = map[string]propCfg{
 	"C04": defCfg(),
 	"C05": defCfg(),
 	"C06": func() propCfg { c := defCfg(); c.Level = "fault_enumeration"; return c }(),
+	"C12": defCfg(),
 	"C13": defCfg(),
 	"C17": defCfg(),
 	"C18": defCfg(),
@@ -23,6 +24,7 @@ var rules = map[string]string{
 	"C04": chainRule + "non-trivial = at least one main-chain switch or truncation happened",
 	"C05": chainRule + "non-trivial = at least one failed operation was checked for traces and more than three live-vs-reopened comparisons ran",
 	"C06": chainRule + "each scenario (3-14 steps on node 0, a second node produces competing blocks) is run uninterrupted with the write journal on, then EVERY prefix of its write units (all boundaries when the scenario issued <= 64 units, else all boundaries of the last three steps plus a sample) is restarted and checked (ledger battery, C01 fresh replay, C02 sums, Walk to tip, one more block and transfer); evaluations counts scenarios, faults_fired.crash-restart counts crash images; non-trivial = more than three crash images were restarted and synced",
+	"C12": "plans: a sequential setup (up to 8 tx / kv-contract tx / mine steps, mirrored to a second node), then 2-4 concurrent requests (SubmitTx of transfers and kv-contract calls built against the same pre-state so that they conflict on outputs / keys by selector collision, locking SelectUtxos, at most one ConfirmBlock+Play of a competing block mined by the second node) run as cooperative tasks with up to 4 planned preemptions at lock / statement granularity (focus list: SpinLock, doTxSync, SelectUtxos, tryLockKey ...); oracle: outcomes and final observations equal those of some permutation executed serially on a node booted from a clone of the pre-state disk, selectors disjoint, C02/C03 invariants, no deadlock, no panic; non-trivial = a run with real task switches beyond task starts was checked against the serial orders; distinct = distinct event-log digests; distinct_interleavings = distinct task-switch traces",
 	"C13": chainRule + "non-trivial = a block with pool transactions was mined and replayed on a fresh node",
 	"C17": chainRule + "non-trivial = a walk failed (refused at the irreversible height or otherwise) or undid a block",
 	"C20": "plans: 1-4 messages built by the real NewMessage (all payload kinds: nil, empty, small, incompressible, large compressible, block; options), corruption faults on the encoded payload (ALL single-bit flips for payloads <= 48 bytes, seeded bursts <= 32 bits otherwise), 1-4 subscribers (handler / channel, chain and sender filters), 1-3 concurrent tasks of Register / UnRegister / Dispatch ops under the cooperative scheduler with up to 4 planned preemptions at statement granularity, then sequential repeats across clock steps; non-trivial = a history with preemptions was checked for linearizability and at least one dispatch delivered; distinct = distinct event-log digests",
